@@ -120,6 +120,7 @@ template <typename Range> std::string names(const World& w, const Range& r) {
 template <typename P> std::string name1(const World& w, const P& p) { return p ? "[" + w.name(p.get()) + "]" : "[]"; }
 
 std::string block_ids(const El& e);
+std::string extra_fields(const World& w, const El& e);
 
 void snapshot(World& w, std::ostream& out) {
   for (auto const& d : w.docs) {
@@ -180,7 +181,7 @@ void snapshot(World& w, std::ostream& out) {
             << " uidchan=" << name1(w, e.uid->getReference<AudioChannelFormat>());
         break;
     }
-    out << "\n";
+    out << extra_fields(w, e) << "\n";
   }
 }
 
